@@ -600,6 +600,22 @@ func (w *c53Run) step(wi, oi int, op c53Op) {
 			for i := range *bp {
 				(*bp)[i] = 0xA5
 			}
+			if (op.A/3)%2 == 1 && n > 1 {
+				// Put accepts a prefix of what Get returned (the transport
+				// strips DATA frame padding by re-slicing the handle): the
+				// bytes behind the prefix are dirty and must be zeroed too when
+				// the memory is handed out again
+				*bp = (*bp)[:n/2]
+				p.Put(bp)
+				e.Probe("real_pool_put_shortened")
+				bp = p.Get(n)
+				for i, c := range *bp {
+					if c != 0 {
+						e.Violate("pool_not_zeroed", "Get(%d) after a Put of a %d-byte prefix returned a non-zero byte %#x at offset %d", n, n/2, c, i)
+						break
+					}
+				}
+			}
 			p.Put(bp)
 		}
 		e.Probe("real_pool_roundtrip")
